@@ -24,7 +24,9 @@ func init() {
 		Rules: []func(*Checker){ruleC05Link, ruleC05Deref, ruleDerefHeader("C05.derefheader"), ruleC05Resolve("C05.resolve"), ruleNestedWalk("C05.nested"), ruleWalkRoles("C05.roles"), ruleAcceptedLinkIsCreated("C05.created"), ruleResolverGetsDiskPath("C05.resolvepath"), rulePredSound("C05.pred"), ruleC05Pos, ruleC04Accept2("C05.accept"), rulePackerWriters("C05.allowlist"), ruleAllowBase("C05.allowbase"), ruleC04Relative("C05.relative"),
 			aliasRuleFiltered(ruleC16Readlink, "C16.readlink", "C05.chain", 1, func(o Oblig) bool { return !strings.Contains(o.Key, "(*slug.Packer).Pack/") }),
 			// SkipDir returned for something that is not a directory skips the rest of the directory it is in: links that sort after it are never judged
-			aliasRuleFiltered(ruleC03Prune, "C03.prune", "C05.skipdir", 1, func(o Oblig) bool { return strings.Contains(o.Key, "SkipDir only for directories") })},
+			aliasRuleFiltered(ruleC03Prune, "C03.prune", "C05.skipdir", 1, func(o Oblig) bool { return strings.Contains(o.Key, "SkipDir only for directories") }),
+			// Unpack accepts what Pack wrote also where the destination is a link to the directory to fill
+			aliasRuleFiltered(ruleC01Walk, "C01.walk", "C05.walked", 1, func(o Oblig) bool { return strings.Contains(o.Key, "below the destination") })},
 		NotDecided: []string{
 			"content equality of dereferenced copies",
 			"behaviour of links that are in-tree on disk but whose targets are replaced during the walk",
